@@ -11,10 +11,88 @@ GATE = ["disc", "is_de", "status", "fc_ok", "possible", "dtype"]
 ADVISORY = ["hints", "fc_msg"]
 
 
+def full_input(spec, cer, soll) -> Dict[str, Any]:
+    """the request for the end-to-end model (Model/Full.lean): expression TEXTS and the content evaluation result"""
+    def de(d):
+        if d["t"] == "free":
+            return {"k": "free", "disc": d["disc"], "expr": V.expr_text(d["expr"]), "input": d["input"], "vtype": d.get("vtype")}
+        return {"k": "pool", "disc": d["disc"], "entries": [{"q": e["q"], "m": e["m"], "expr": V.expr_text(e["expr"])} for e in d["entries"]], "input": d["input"]}
+
+    def seg(s_):
+        return {"disc": s_["disc"], "expr": V.expr_text(s_["expr"]), "des": [de(d) for d in s_["des"]]}
+
+    def grp(g):
+        return {"disc": g["disc"], "expr": V.expr_text(g["expr"]), "groups": [grp(x) for x in g["groups"]], "segs": [seg(x) for x in g["segs"]]}
+
+    return {"op": "validateFull", "soll": soll, "lines": [grp(g) for g in spec["lines"]], "rc": cer["rc"],
+            "fc": {k: [v, None if v else f"fc {k} failed"] for k, v in cer["fc"].items()}, "hints": cer["hints"], "packages": cer["packages"]}
+
+
+def grouping_sensitive(spec, cer) -> bool:
+    """does some node expression lie where the grouping of a same-operator run matters (C05's known finding K1), or does Lark group a
+    juxtaposition run outside the documented use?  Only there may the model's parse (left-nested runs) and Lark's differ in effect:
+    everywhere else C05_brackets_partial proves that trees with the same flattening have the same validity and outcome."""
+    from .. import evaluation as E, parsing as P, trees as T
+    V.set_cer(cer)
+    for kind, node, _ in V.walk(spec):
+        exprs = [e["expr"] for e in node["entries"]] if kind == "pool" else [node["expr"]]
+        for x in exprs:
+            r = P.resolve(V.expr_text(x), resolve_packages=True)
+            if "err" in r or r["lark"].data != "ahb_expression":
+                continue
+            for ch in r["lark"].children:
+                if ch.data == "single_requirement_indicator_expression" and len(ch.children) > 1:
+                    t = T.from_lark(ch.children[1])
+                    if E.in_k1_class(t) or not E.well_formed(t):
+                        return True
+    return False
+
+
+def _err_class(e):
+    return None if e is None else ("other" if e.startswith("other") else e)
+
+
+def correspondence_full(ctx: Ctx, runs: List[Dict[str, Any]], drv: bool, name: str = "validateFull") -> None:
+    """end to end: the model parses, resolves and evaluates every node expression itself (nothing is taken from the implementation)"""
+    if not drv or not runs:
+        return
+    outs = ctx.driver([full_input(r["spec"], r["cer"], r["soll"]) for r in runs])
+    n_diff = n_k1 = 0
+    for r, o in zip(runs, outs):
+        im = r["impl"]
+        bad = None
+        if ("err" in im) or ("err" in o):
+            if _err_class(im.get("err")) != _err_class(o.get("err")):
+                bad = {"impl": im.get("err", "results"), "model": o.get("err", "results")}
+        else:
+            a, b = im["results"], o["results"]
+            if len(a) != len(b):
+                bad = {"len_impl": len(a), "len_model": len(b)}
+            else:
+                for x, y in zip(a, b):
+                    d = [f for f in GATE if x.get(f) != y.get(f)]
+                    if d:
+                        bad = {"disc": x["disc"], "fields": d, "impl": x, "model": y}
+                        break
+                    for f in ADVISORY:
+                        if x.get(f) != y.get(f) and y.get(f) != "":  # the text of a caught InvalidExpressionError is not modelled
+                            ctx.advise({"disc": x["disc"], "field": f, "impl": x.get(f), "model": y.get(f)})
+        if bad and grouping_sensitive(r["spec"], r["cer"]):
+            n_k1 += 1
+            continue
+        if bad:
+            n_diff += 1
+            if n_diff <= 5:
+                ctx.broke("correspondence", name, json.dumps({"diff": bad, "spec": r["spec"], "cer": r["cer"], "soll": r["soll"]})[:3000])
+    ctx.coverage.setdefault("correspondence", {})[name] = {"lines": len(runs), "disagreements": n_diff,
+                                                           "differences_inside_K1_class_not_counted": n_k1}
+
+
 def correspondence(ctx: Ctx, runs: List[Dict[str, Any]], drv: bool, name: str = "validate") -> None:
     """runs: [{'spec', 'cer', 'soll', 'impl'}]; adds 'model'"""
     if not drv:
         return
+    correspondence_full(ctx, runs, drv)
     reqs, idx = [], []
     for i, r in enumerate(runs):
         mi, usable = V.model_input(r["spec"], r["cer"])
